@@ -91,7 +91,7 @@ func (s *genState) tail() *tailVariant {
 }
 
 func (s *genState) crash(c string) {
-	o := Op{K: "crash", C: c, I: s.g.Intn(24), M: s.g.Uint64(), T: s.tail(), A: s.g.Intn(3) == 0}
+	o := Op{K: "crash", C: c, I: s.g.Intn(24), M: s.g.Uint64(), T: s.tail(), A: lib.Pick(s.g, []int{0, 0, 1, 2})}
 	if c == "flush" || c == "close" {
 		switch x := s.g.Intn(100); {
 		case s.faults && x < 20:
